@@ -39,7 +39,7 @@ def _is_new_function(fi: FuncInfo) -> bool:
         except (OSError, ValueError, KeyError):
             _PINNED = set()
             return False
-    if not _PINNED or fi.name == "<lambda>" or fi.parent is not None:
+    if not _PINNED or fi.name == "<lambda>":
         return False
     return fi.qualname not in _PINNED
 
